@@ -154,7 +154,7 @@ def try_load(data, must_be_value_error):
                 return ("header-or-version-fault-not-ValueError:%s"
                         % type(e).__name__, repr(e)[:200])
             return None
-        if must_be_value_error:
+        if must_be_value_error or len(data) < 8:
             return ("header-or-version-fault-accepted", "load returned an IR")
         try:
             probs = coherent(ir)
@@ -173,7 +173,14 @@ def try_load(data, must_be_value_error):
 
 
 def header_must_fail(data, pv):
-    return data[:5] != b"GTIRB" or len(data) < 8 or data[7] != pv
+    """ValueError specifically: the first five bytes are not GTIRB, or the
+    version byte is there and differs.  (A file cut inside the header after
+    the magic must still be rejected, but with any exception.)"""
+    return data[:5] != b"GTIRB" or (len(data) >= 8 and data[7] != pv)
+
+
+def must_reject(data, pv):
+    return len(data) < 8
 
 
 # ------------------------------------------------------------ byte faults
